@@ -705,7 +705,7 @@ func (p *Prog) fieldBoundInCallee(call *ssa.Call, k int, holds func(v ssa.Value,
 				return
 			case *ssa.If:
 				for si, s := range b.Succs {
-					nfs := appendFact(append([]Fact{}, fs...), Fact{x.Cond, si == 0}, 0)
+					nfs := appendFact(append([]Fact{}, fs...), Fact{Cond: x.Cond, Truth: si == 0}, 0)
 					walk(s, nfs, lastStore, seen)
 				}
 				return
